@@ -78,6 +78,17 @@ CHECKS = {
         'shared between obsolete and current terms, clashing ids, both ontology kinds, all query forms, identity of the returned object.',
         'Trusted: Coq kernel + vm_compute; dict modelled as association list with in-place overwrite; object identity rendered as list position.',
         '§4 C06'),
+    'C11': (
+        'Coq proof (sound+complete characterisation of each validator over the proved graph and id-map models, with multiplicity; runner = concatenation) + per-run vm_compute correspondence with src/hpotk/validate/*.py',
+        'Machine-checked theorems for every graph built from an acyclic edge list, every ontology over it and every item sequence whose ids the ontology '
+        'knows: the annotation-propagation validator reports an ERROR naming (d,a) exactly when - after replacing obsolete ids by current ones - some item '
+        'carries d, a is a strict ancestor of d carried by some item, and d is present or both are excluded, exactly once per (item, offending ancestor id) '
+        'and nothing else; the phenotypic-abnormality validator warns exactly for items whose current id is not a strict descendant of HP:0000118; the '
+        'obsolete-id validator warns exactly for items whose id differs from its current id, which for disjoint ids means: uses an alternate id; the runner '
+        'returns the concatenation and is_ok iff empty. Non-mutation of the caller\'s items is checked on the implementation (aliasing fact, not a theorem). '
+        'Correspondence: exhaustive item sequences on a fixed ontology + random multi-parent ontologies, all item forms, all validator combinations.',
+        'Trusted: as C01 and C06; message wording parsed by the harness (CURIEs in brackets, state word).',
+        '§4 C11'),
     'C15': (
         'Coq proof (refinement of the nested-dict container to a map on unordered pairs by induction over histories; structural invariant for items/len; metadata codec round trip at string level) + per-run vm_compute correspondence and an executed CSV round trip',
         'Machine-checked theorems for EVERY history of set_similarity calls and any value type with a zero and a sign test: get(a,b) = get(b,a) = the last '
